@@ -255,6 +255,8 @@ type End struct {
 	// CloseCount counts Close calls (the library must close its transport).
 	CloseCount atomic.Int32
 	OnClose    func()
+	// CloseDelay makes Close take that long (as closing a TLS connection can).
+	CloseDelay time.Duration
 }
 
 // Pair returns two connected endpoints. a2b configures the direction a->b.
@@ -273,6 +275,9 @@ func (e *End) Close() error {
 	e.CloseCount.Add(1)
 	if e.closed.Swap(true) {
 		return net.ErrClosed
+	}
+	if e.CloseDelay > 0 {
+		time.Sleep(e.CloseDelay)
 	}
 	e.w.mu.Lock()
 	e.w.wclosed = true
